@@ -37,6 +37,16 @@ Two kinds of case share the budget (case['kind']):
         step of such a rerun that returns normally is held to the mirror
         clause. The same audit watch also runs (observe only) during sync and
         fault cases.
+        Half of the agent cases are *histories* (_history_case): after
+        run(once=True) has installed the placement watch, the scheduler
+        session changes ZooKeeper several times (instances arrive with or
+        without a manifest, leave, are moved, lose their manifest, lose their
+        placement record while the agent is handling a notification) and
+        every change is delivered, through the fake's ChildrenWatch (kazoo's
+        contract: a callback returning False is never called again), to that
+        one running agent. After each delivered placement change the mirror
+        clause is applied to the ZooKeeper state the agent was notified of
+        (c12.placement-event.*).
 """
 
 import os
@@ -63,8 +73,15 @@ RULE = ('sync cases: a real EventMgr._synchronize on a temp root against the '
         'run(once=True) / _cache_notify / _synchronize steps with the cache '
         'directory observed at every file system operation (audit hook) and '
         'each mutating operation failed once; non-trivial = >=1 mutating '
-        'operation and >=1 ready notification. distinct = canonical JSON of '
-        'the case.')
+        'operation and >=1 ready notification. Half of the agent cases are '
+        'histories: run(once=True), then 2-6 scheduler actions (place with / '
+        'without manifest, unplace, app deleted, move, placement record '
+        'removed while the notification is being handled), each delivered '
+        'through the placement watch to the same running agent and followed '
+        'by the mirror oracle (history:events_notified; '
+        'history:events_after_incomplete_sync = changes delivered after a '
+        'synchronisation that could not cache a listed instance). '
+        'distinct = canonical JSON of the case.')
 ASSUMPTIONS = [
     'ZooKeeper is the in-memory fake (pbt/fakezk.py); placement and '
     'scheduled nodes are written by the real zkutils.put (JSON), placement '
@@ -92,6 +109,17 @@ ASSUMPTIONS = [
     '(instead of os._exit); watches are delivered synchronously, so a reader '
     'racing the agent is modelled as an observation between two of its file '
     'system operations, not as a second thread',
+    'histories: the agent that run(once=True) leaves behind (watches '
+    'installed, main loop only sleeping and refreshing .ready) is the '
+    'running service; run() synchronises only from its placement '
+    'ChildrenWatch callback, so "the agent synchronises with ZooKeeper" '
+    'happens when a change of the children of /placement/<host> is '
+    'delivered to that callback, and the mirror is judged when the '
+    'delivery has returned, against the ZooKeeper state at that moment; '
+    'several mutations of one scheduler action give one notification '
+    '(one-shot watches); the fake ChildrenWatch follows '
+    'kazoo.recipe.watchers (callback result False = never called again); '
+    'the placement root itself is not deleted under a running agent',
 ]
 TRUSTED = ['pbt/fakezk.py', 'pbt/cachefs.py', 'PyYAML safe loader']
 BUDGET = {'quick': 6400, 'thorough': 96000}
@@ -449,6 +477,116 @@ def _agent_case(draw):
     }
 
 
+EVENT_KIND = st.sampled_from([
+    'place', 'place', 'place', 'unplace', 'unplace', 'move', 'delete_app',
+    'place_orphan', 'race'])
+EVENT_COUNT = st.sampled_from([2, 3, 3, 4, 5, 6])
+DIE5 = st.sampled_from(list(range(5)))
+
+
+def _history_case(draw):
+    """A running agent and a *history* of placement lists: run(once=True)
+    installs the placement watch (the heartbeat loop of the real service then
+    only sleeps), after which the scheduler changes ZooKeeper several times
+    and every change is delivered to that same agent through the watch it
+    installed. Steps that are dicts are scheduler actions:
+
+      place         /scheduled/<i> (unless there) then /placement/<host>/<i>
+      place_orphan  the placement record only: the app was deleted before the
+                    scheduler placed it, or its manifest is gone
+      unplace       the placement record removed (half of the time the
+                    manifest first: app deleted)
+      delete_app    the manifest removed, the placement record stays for now
+                    (no placement notification)
+      move          one instance leaves, another arrives, one notification
+      race          two instances arrive; while the agent handles the
+                    notification (it has listed the children) the record of
+                    one placed instance is removed again
+
+    The generator keeps a model (placed / scheduled names) only to aim; every
+    mutation is a no-op when it does not apply, so any such list is a legal
+    history."""
+    roles = list(draw(AGENT_ROLES))
+    order = draw(NAME_ORDER)
+    names = order[:len(roles)]
+    insts = []
+    placed, scheduled = [], set()
+    for name, role in zip(names, roles):
+        inst = _instance(draw, name, role)
+        if inst['placed'] != inst['pnode']:
+            inst['pnode'] = inst['placed']
+            inst['pdata'] = draw(PDATA) if inst['pnode'] else None
+        insts.append(inst)
+        if inst['placed']:
+            placed.append(name)
+        if inst['manifest'] is not None:
+            scheduled.add(name)
+    free = [name for name in order if name not in placed]
+
+    def arrive(muts, orphan=False):
+        name = free.pop(draw(DIE8) % len(free))
+        if not orphan and name not in scheduled:
+            muts.append({'do': 'schedule', 'name': name,
+                         'manifest': _manifest(draw)})
+            scheduled.add(name)
+        muts.append({'do': 'place', 'name': name, 'pdata': draw(PDATA)})
+        placed.append(name)
+        return name
+
+    def leave(muts, app_deleted):
+        name = placed.pop(draw(DIE8) % len(placed))
+        if app_deleted and name in scheduled:
+            muts.append({'do': 'unschedule', 'name': name})
+            scheduled.discard(name)
+        muts.append({'do': 'unplace', 'name': name})
+        free.append(name)
+        return name
+
+    steps = ['run_once']
+    for _ in range(draw(EVENT_COUNT)):
+        kind = draw(EVENT_KIND)
+        if kind in ('unplace', 'move', 'delete_app') and not placed:
+            kind = 'place'
+        if kind in ('place', 'place_orphan', 'move', 'race') and not free:
+            kind = 'unplace'
+        muts, race = [], None
+        if kind == 'place':
+            arrive(muts)
+        elif kind == 'place_orphan':
+            arrive(muts, orphan=True)
+        elif kind == 'unplace':
+            leave(muts, draw(BOOL))
+        elif kind == 'move':
+            leave(muts, False)
+            arrive(muts, orphan=draw(DIE5) == 0)
+        elif kind == 'delete_app':
+            name = placed[draw(DIE8) % len(placed)]
+            muts.append({'do': 'unschedule', 'name': name})
+            scheduled.discard(name)
+        else:   # race
+            arrive(muts)
+            if free and draw(BOOL):
+                arrive(muts)
+            race = placed.pop(-1 if draw(BOOL) else
+                              draw(DIE8) % len(placed))
+            free.append(race)
+        steps.append({'op': kind, 'muts': muts, 'race': race})
+        if draw(DIE5) == 0:
+            # the heartbeat of the main loop between two notifications
+            steps.append('notify_ready')
+    return {
+        'kind': 'agent',
+        'check_existing': True,
+        'presence': draw(DIE4) != 0,
+        'placement_root': True,
+        'instances': _shuffled(draw, insts),
+        'dotfiles': _dotfiles(draw, names[:1]),
+        'steps': steps,
+        'faults': draw(DIE4) == 0,
+        'errno': draw(ERRNO),
+    }
+
+
 @st.composite
 def cases(draw):
     die = draw(DIE12)
@@ -456,6 +594,8 @@ def cases(draw):
         return _fault_case(draw)
     if die == 1:
         return _agent_case(draw)
+    if die == 2:
+        return _history_case(draw)
     return _sync_case(draw)
 
 
@@ -672,6 +812,64 @@ def _run_fault(case, stats):
     return after_bytes
 
 
+def _history_step(world, step, ctl, raisable, stats):
+    """One scheduler action and the delivery of its watch notification.
+
+    When the children of /placement/<host> changed and a run() has installed
+    its placement watch, the notification *is* the agent synchronising with
+    ZooKeeper (run() synchronises nowhere else), so once the delivery has
+    returned the mirror clause applies to the ZooKeeper state the agent was
+    notified of. stats None: a rerun with an injected failure (judged only
+    once the failure has happened, like the other steps)."""
+    mutations = cachefs.agent_step(world, step, ctl, raisable)
+    event = world.last_event
+    what = 'placement event %d (%s: +%s -%s%s)' % (
+        event['no'], step.get('op'), event['added'], event['removed'],
+        ', record of %r removed while the agent handled the notification'
+        % event['raced'] if event['raced'] else '')
+    world.check_observable('the end of ' + what)
+    notified = event['children_changed'] and world.watching
+    if stats is not None:
+        stats.count('history:events')
+        stats.count('history:event:%s' % step.get('op'))
+        if event['raced']:
+            stats.count('history:event_record_vanished_during_sync')
+    if not notified:
+        if stats is not None:
+            stats.count('history:events_without_notification')
+        return mutations
+    where = ('after %s had been delivered to the running agent (%d file '
+             'system operations on the cache directory during the delivery%s),'
+             % (what, event['fs_points'],
+                '' if event['fs_points'] else
+                ': the agent did not synchronise'))
+    if stats is not None:
+        stats.count('history:events_notified')
+        if event['fs_points']:
+            stats.count('history:events_agent_synchronised')
+        if event['after_incomplete']:
+            # the part of the quantifier this schedule exists for: a placement
+            # change *after* a synchronisation that could not cache a listed
+            # instance (manifest or placement record missing)
+            stats.count('history:events_after_incomplete_sync')
+        if event['uncachable'] or event['raced']:
+            stats.count('history:event_sync_with_uncachable_instance')
+        cachefs.check_after_sync(
+            world, cachefs.PrefixedStats(stats, 'history:'),
+            prefix='c12.placement-event', where=where, check_existing=False)
+    elif ctl.fired is not None:
+        cachefs.check_after_sync(
+            world, cachefs.PrefixedStats(None, ''),
+            prefix='c12.fault.sync-completed',
+            where='%s which returned normally although %s was injected at fs '
+            'operation %d (%s),' % (where.rstrip(','), ctl.errno_name,
+                                    ctl.fired[0], ctl.fired[1]),
+            check_existing=False)
+    if event['uncachable'] or event['raced']:
+        world.incomplete_sync = True
+    return mutations
+
+
 def _agent_steps(world, case, ctl, raisable, stats=None):
     """Run the steps; returns (mutating fs operations, syncs performed).
 
@@ -682,6 +880,13 @@ def _agent_steps(world, case, ctl, raisable, stats=None):
     sit in any of them)."""
     mutations = syncs = 0
     for step in case['steps']:
+        if isinstance(step, dict):
+            mutations += _history_step(world, step, ctl, raisable, stats)
+            continue
+        if step == 'run_once' and world.uncachable():
+            world.incomplete_sync = True
+            if stats is not None:
+                stats.count('history:first_sync_with_uncachable_instance')
         mutations += cachefs.agent_step(world, step, ctl, raisable)
         synced = step == 'sync' or (step == 'run_once' and
                                     case.get('placement_root') is not False)
@@ -704,7 +909,10 @@ def _run_agent(case, stats):
     stats.count('kind:agent')
     _count_case(case, stats)
     for step in case['steps']:
-        stats.count('agent_step:' + step)
+        if not isinstance(step, dict):
+            stats.count('agent_step:' + step)
+    if any(isinstance(step, dict) for step in case['steps']):
+        stats.count('kind:agent:history')
     errno_name = case.get('errno', 'ENOSPC')
     world = cachefs.World(case)
     try:
@@ -719,7 +927,8 @@ def _run_agent(case, stats):
                 'c12.agent.raised.%s' % type(err).__name__,
                 'the agent died in steps %r on a cache / ZooKeeper state the '
                 'node can be in: %s: %s' % (
-                    case['steps'], type(err).__name__,
+                    [step.get('op') if isinstance(step, dict) else step
+                     for step in case['steps']], type(err).__name__,
                     ' '.join(str(err).split())[:300]))
         points = list(ctl.points)
         stats.count('agent_fs_operations_observed', len(points))
@@ -914,8 +1123,56 @@ def fixed_cases():
         'dotfiles': [{'name': '.foo.web#0000000002-abc123_x',
                       'text': 'cpu: 10%\nmemo'}],
     }
+    one, two, three, four = ('foo.web#0000000001', 'foo.web#0000000002',
+                             'foo.db-1#0000000012',
+                             'treadmld.api.v2#0000000001')
+
+    def _ev(kind, muts, race=None):
+        return {'op': kind, 'muts': muts, 'race': race}
+
+    history = {
+        # one running agent, a life of the node: an instance arrives whose
+        # app was already deleted, its stale record is dropped, an ordinary
+        # arrival, an app deleted and then unplaced, a move, two arrivals one
+        # of which is withdrawn while the agent handles the notification, the
+        # last instance leaves. Every mutating fs operation also fails once.
+        'kind': 'agent', 'check_existing': True, 'presence': True,
+        'placement_root': True, 'faults': True, 'errno': 'ENOSPC',
+        'instances': [
+            {'name': one, 'role': 'missing', 'placed': True,
+             'manifest': _man(1), 'pnode': True,
+             'pdata': _pd(None, 1578279999.25), 'file': None},
+        ],
+        'dotfiles': [],
+        'steps': [
+            'run_once',
+            _ev('place_orphan', [{'do': 'place', 'name': two,
+                                  'pdata': _pd(None, 1578280001.0)}]),
+            _ev('unplace', [{'do': 'unplace', 'name': two}]),
+            _ev('place', [{'do': 'schedule', 'name': three,
+                           'manifest': _man(3)},
+                          {'do': 'place', 'name': three,
+                           'pdata': _pd(4, 1578280002.5)}]),
+            'notify_ready',
+            _ev('delete_app', [{'do': 'unschedule', 'name': one}]),
+            _ev('unplace', [{'do': 'unplace', 'name': one}]),
+            _ev('move', [{'do': 'unplace', 'name': three},
+                         {'do': 'schedule', 'name': four,
+                          'manifest': _man(4)},
+                         {'do': 'place', 'name': four,
+                          'pdata': _pd(None, None)}]),
+            _ev('race', [{'do': 'schedule', 'name': two,
+                          'manifest': _man(2)},
+                         {'do': 'place', 'name': two,
+                          'pdata': _pd(0, 1578280003.0)},
+                         {'do': 'place', 'name': three,
+                          'pdata': _pd(1, 1578280003.0)}], race=three),
+            _ev('unplace', [{'do': 'unplace', 'name': four}]),
+        ],
+    }
     return [('aimed-sync-extra-missing-outdated', mixed),
             ('aimed-agent-run-once-notifications', agent),
+            ('aimed-agent-placement-history', history),
             ('aimed-sync-only-outdated', only_outdated),
             ('aimed-sync-json-value-domain', wide),
             ('aimed-fault-replace-existing', replace_old),
